@@ -37,6 +37,18 @@ def l123 : Value := Value.ofList [num 1, num 2, num 3]
 `(scheme base)` -/
 example : LibFrame libStore 0 := libFrame_libStore
 
+/-- … and they are what the interpreter builds: in a state whose registered `(ruschm base)` is the
+native library, `Interp.evalLibraryDef` on the declarations generated from `base.sld` succeeds and
+its fresh root frame (here frame 1) is a library frame (`libFrame_of_evalLibraryDef`, for every such
+state) -/
+example : ∃ exports st', Interp.evalLibraryDef 40
+      { store := (({} : Store).newFrame none).2, factories := [(Interp.libRuschmBase, .native Interp.nativeBase)] }
+      libDecls = (.ok exports, st') ∧ LibFrame st'.store 1 := by
+  obtain ⟨exports, st', h, hl, _⟩ := libFrame_of_evalLibraryDef
+    { store := (({} : Store).newFrame none).2, factories := [(Interp.libRuschmBase, .native Interp.nativeBase)] }
+    40 (Nat.le_refl _) rfl rfl rfl
+  exact ⟨exports, st', h, hl⟩
+
 /-- appending frames keeps the library frame -/
 theorem libFrame_ext {σ σ' : Store} {b : Nat} (h : LibFrame σ b) (he : σ.Ext σ') : LibFrame σ' b :=
   h.ext he.framesExt
@@ -359,17 +371,24 @@ example : ∃ σ', Applies libStore (libProc "for-each" 0) [.builtin .tick, l123
   obtain ⟨rfl, ht, _⟩ := mapM_tick h₂
   exact ⟨σ', h₁, ht⟩
 
-/-- `cons` is a procedure argument of the folds in every store -/
-theorem procArg_cons (b N : Nat) (dom : List Value → Prop) (hd : ∀ args, dom args → args.length = 2) :
-    ProcArg b N (fun _ => True) (.builtin .cons) dom :=
-  ProcArg.builtin (by decide) (fun args h => by rw [hd args h]; rfl)
-    (fun σ args h => by
-      match args, hd args h with
-      | [a, d], _ => simp [Prim.applyPure, Prim.ok])
-    (fun σ args => by
-      match args with
-      | [] | [_] => rfl
-      | _ :: _ :: _ => rfl)
+/-- with a PURE procedure argument (here the native `car`; any library procedure would do,
+`ProcArg.of_papp`) `map` computes `List.mapM`: `(map car '((1) (2)))` is `(1 2)`, and mapping `car`
+over `(1 2 3)` is the type error of the first application -/
+example : ∃ σ', Applies libStore (libProc "map" 0) [.builtin .car, Value.ofList [Value.ofList [num 1], Value.ofList [num 2]]]
+    0 (.ok (Value.ofList [num 1, num 2])) σ' ∧ libStore.DExt σ' := by
+  obtain ⟨r, σ', h₁, h₂, _⟩ := map_spec (K := fun σ => LibFrame σ 0) (f := .builtin .car) libFrame_libStore
+    libFrame_libStore (Value.ofList [Value.ofList [num 1], Value.ofList [num 2]])
+    (ProcArg.of_papp (g := fun args => carS (args.headD .nil)) rfl
+      fun args h => by obtain ⟨x, _, rfl⟩ := h; exact PApp.car) 0
+  obtain ⟨rfl, e⟩ := mapM_of_papp (g := carS) (fun x => PApp.car) h₂ libFrame_libStore
+  exact ⟨σ', h₁, e⟩
+example : ∃ σ', Applies libStore (libProc "map" 0) [.builtin .car, l123] 0 (.error typeErr) σ' := by
+  obtain ⟨r, σ', h₁, h₂, _⟩ := map_spec (K := fun σ => LibFrame σ 0) (f := .builtin .car) libFrame_libStore
+    libFrame_libStore l123
+    (ProcArg.of_papp (g := fun args => carS (args.headD .nil)) rfl
+      fun args h => by obtain ⟨x, _, rfl⟩ := h; exact PApp.car) 0
+  obtain ⟨rfl, e⟩ := mapM_of_papp (g := carS) (fun x => PApp.car) h₂ libFrame_libStore
+  exact ⟨σ', h₁⟩
 
 /-- `(fold-right cons '() '(1 2 3))` is `(1 2 3)`; `(fold-left cons '() '(1 2 3))` is `(3 2 1)` -/
 example : ∃ σ', Applies libStore (libProc "fold-right" 0) [.builtin .cons, .nil, l123] 0 (.ok l123) σ' := by
